@@ -51,6 +51,7 @@ type wop struct {
 	AllowMiss   bool
 	GenID       bool // WithGenIDIfAbsent (+ id callback)
 	CreatedCB   bool
+	CBMark      bool // the id / created callbacks write into the message that is being written (B = true), as the trait models do with generated ids
 	HasWT       bool
 	WT          time.Time
 	AllWritable bool // WithAllFieldsWritable
@@ -103,6 +104,9 @@ func (o wop) String() string {
 	}
 	if o.CreatedCB {
 		sb.WriteString(" createdCB")
+	}
+	if o.CBMark {
+		sb.WriteString(" callbacksMarkTheMessage")
 	}
 	if o.HasWT {
 		fmt.Fprintf(&sb, " writeTime=%d", o.WT.UnixNano())
@@ -410,6 +414,11 @@ func (o wop) written(withBallast bool) *testproto.TestAllTypes {
 var errCheck = status.Error(codes.OutOfRange, "expected check failed")
 
 func (o wop) writeOpts(res *wres, withBallast bool) []resource.WriteOption {
+	return o.writeOptsMsg(res, withBallast, nil)
+}
+
+// writeOptsMsg: msg is the message handed to the write (callbacks that complete it - CBMark - write into it).
+func (o wop) writeOptsMsg(res *wres, withBallast bool, msg *testproto.TestAllTypes) []resource.WriteOption {
 	var opts []resource.WriteOption
 	if o.HasMask {
 		opts = append(opts, resource.WithUpdateMask(fm(o.Mask)))
@@ -478,10 +487,19 @@ func (o wop) writeOpts(res *wres, withBallast bool) []resource.WriteOption {
 			simYield("cb.id")
 			res.ID = id
 			res.IDCalls++
+			if o.CBMark && msg != nil {
+				msg.DefaultBool = true
+			}
 		}))
 	}
 	if o.CreatedCB {
-		opts = append(opts, resource.WithCreatedCallback(func() { simYield("cb.created"); res.Created++ }))
+		opts = append(opts, resource.WithCreatedCallback(func() {
+			simYield("cb.created")
+			res.Created++
+			if o.CBMark && msg != nil {
+				msg.DefaultBool = true
+			}
+		}))
 	}
 	if o.HasWT {
 		opts = append(opts, resource.WithWriteTime(o.WT))
@@ -538,11 +556,13 @@ func (r *realRes) apply(o wop) wres {
 		res.Code = errCode(err)
 		setMsg(p)
 	case opAdd:
-		p, err := r.col.Add(o.ID, o.written(r.cfg.Ballast), o.writeOpts(&res, r.cfg.Ballast)...)
+		msg := o.written(r.cfg.Ballast)
+		p, err := r.col.Add(o.ID, msg, o.writeOptsMsg(&res, r.cfg.Ballast, msg)...)
 		res.Code = errCode(err)
 		setMsg(p)
 	case opUpdate:
-		p, err := r.col.Update(o.ID, o.written(r.cfg.Ballast), o.writeOpts(&res, r.cfg.Ballast)...)
+		msg := o.written(r.cfg.Ballast)
+		p, err := r.col.Update(o.ID, msg, o.writeOptsMsg(&res, r.cfg.Ballast, msg)...)
 		res.Code = errCode(err)
 		setMsg(p)
 	case opDelete:
@@ -767,7 +787,13 @@ func (m *model) apply(o wop, genID string) wres {
 			old = mm{}
 			if o.CreatedCB {
 				res.Created = 1
+				if o.CBMark {
+					o.Val.B = true
+				}
 			}
+		}
+		if o.CBMark && res.IDCalls == 1 {
+			o.Val.B = true
 		}
 		n, c := m.change(old, true, o)
 		if c != codes.OK {
